@@ -270,6 +270,14 @@ pub async fn exec_op(ctx: &mut Option<Ctx>, req: &str, st: &mut Stats) -> (Strin
         let h = VHandler::new(id_of(&me), sock.clone(), ro, port).unwrap();
         let mut c = Ctx { h, sock, clock, me, names: vec![], known: HashSet::new(), fresh: HashMap::new(), secrets: vec![], streams: vec![], last_sent: vec![], last_yields: vec![], last_closed: vec![], ro, v6, announce_port: port, looks: vec![], issued: vec![], store: HashMap::new() };
         c.note_secrets(true);
+        // C19: the long-lived activities hold action ids that were *drawn* from the generator — none of the ids
+        // it will hand out to later activities (round-4 seed C19: refresh and bootstrap got the fixed ids 0 and 1
+        // while the generator's shuffled first block still contained them)
+        let upcoming = c.h.upcoming_action_ids();
+        if upcoming.contains(&c.h.refresh_action_id()) {
+            st.fail(0, 0, &format!("[C19] the refresh activity's action id {} is among the ids the generator will hand out to later activities", c.h.refresh_action_id()));
+        }
+        st.hit("c19_refresh_id_checked");
         let out = c.finish("ok");
         *ctx = Some(c);
         return (req.to_string(), out);
@@ -296,6 +304,12 @@ pub async fn exec_op(ctx: &mut Option<Ctx>, req: &str, st: &mut Stats) -> (Strin
             c.streams.push(Some(rx));
             let sid = c.streams.len() - 1;
             st.hit("lookup");
+            // C19: concurrently live activities have pairwise distinct action ids, none the refresh's
+            let ids = c.h.lookup_action_ids();
+            let mut d = ids.clone(); d.dedup();
+            if d.len() != ids.len() || ids.contains(&c.h.refresh_action_id()) {
+                st.fail(0, 0, &format!("[C19] live searches {:?} share an action id with each other or with the refresh ({})", ids, c.h.refresh_action_id()));
+            }
             (req.to_string(), c.finish(&format!("stream={sid}")))
         }
         "in" => {
